@@ -306,6 +306,15 @@ type HelloSpec struct {
 	Decl      bool     `json:"decl"`
 	ExtraAttr string   `json:"extra_attr"`
 	TrailLF   bool     `json:"trail_lf"`
+	// AttrFirst: ExtraAttr is written in front of the namespace declaration
+	AttrFirst bool `json:"attr_first,omitempty"`
+	// SingleQuotes: the namespace declaration's value is in single quotes
+	SingleQuotes bool `json:"single_quotes,omitempty"`
+	// Lead: what the stream holds in front of the hello (a comment, lines of the ssh client or a
+	// banner)
+	Lead string `json:"lead,omitempty"`
+	// InnerWS: white space around the text of capability and session-id elements
+	InnerWS string `json:"inner_ws,omitempty"`
 }
 
 // Render builds the framed hello.
@@ -329,17 +338,28 @@ func (h HelloSpec) Render() string {
 		sb.WriteString(`<?xml version="1.0" encoding="UTF-8"?>` + nl)
 	}
 
-	fmt.Fprintf(&sb, "<%shello %s%s>%s", p, ns, h.ExtraAttr, nl)
+	if h.SingleQuotes {
+		ns = strings.ReplaceAll(ns, `"`, "'")
+	}
+
+	sb.WriteString(h.Lead)
+
+	if h.AttrFirst && h.ExtraAttr != "" {
+		fmt.Fprintf(&sb, "<%shello%s %s>%s", p, h.ExtraAttr, ns, nl)
+	} else {
+		fmt.Fprintf(&sb, "<%shello %s%s>%s", p, ns, h.ExtraAttr, nl)
+	}
+
 	fmt.Fprintf(&sb, "%s<%scapabilities>%s", ind, p, nl)
 
 	for _, c := range h.Caps {
-		fmt.Fprintf(&sb, "%s%s<%scapability>%s</%scapability>%s", ind, ind, p, c, p, nl)
+		fmt.Fprintf(&sb, "%s%s<%scapability>%s%s%s</%scapability>%s", ind, ind, p, h.InnerWS, c, h.InnerWS, p, nl)
 	}
 
 	fmt.Fprintf(&sb, "%s</%scapabilities>%s", ind, p, nl)
 
 	if h.SessionID != "" {
-		fmt.Fprintf(&sb, "%s<%ssession-id>%s</%ssession-id>%s", ind, p, h.SessionID, p, nl)
+		fmt.Fprintf(&sb, "%s<%ssession-id>%s%s%s</%ssession-id>%s", ind, p, h.InnerWS, h.SessionID, h.InnerWS, p, nl)
 	}
 
 	fmt.Fprintf(&sb, "</%shello>%s", p, EOM)
